@@ -129,7 +129,7 @@ pub fn source_dictionary(subdir: &str) -> Vec<u64> {
 }
 
 /// "Two conditions jointly." One field of a valid seed is set to a dictionary value (at byte offset `offset`, widths
-/// 1, 2 and 4, little endian, values that need that width); `f` sees that input, and then the same input with, on top,
+/// 1, 2 and 4, little and big endian, values that need that width); `f` sees that input, and then the same input with, on top,
 /// every single-bit flip and every byte forced to 0x00 / 0xFF inside `region`. `fix` re-establishes checksums.
 pub fn dict_pairs(seed: &[u8], offset: usize, region: std::ops::Range<usize>, dict: &[u64], fix: impl Fn(&mut Vec<u8>), mut f: impl FnMut(&[u8])) -> u64 {
     let mut n = 0;
@@ -140,8 +140,16 @@ pub fn dict_pairs(seed: &[u8], offset: usize, region: std::ops::Range<usize>, di
         let lo: u64 = if w == 1 { 0 } else { 1 << (4 * w) };
         let hi: u64 = 1 << (8 * w);
         for &v in dict.iter().filter(|&&v| v >= lo && v < hi) {
+          for big_endian in [false, true] {
+            let mut le = v.to_le_bytes()[..w].to_vec();
+            if big_endian {
+                le.reverse();
+                if w == 1 || le == v.to_le_bytes()[..w] {
+                    continue;
+                }
+            }
             let mut a = seed.to_vec();
-            a[offset..offset + w].copy_from_slice(&v.to_le_bytes()[..w]);
+            a[offset..offset + w].copy_from_slice(&le);
             let mut x = a.clone();
             fix(&mut x);
             f(&x);
@@ -165,6 +173,7 @@ pub fn dict_pairs(seed: &[u8], offset: usize, region: std::ops::Range<usize>, di
                     n += 1;
                 }
             }
+          }
         }
     }
     n
